@@ -46,7 +46,7 @@ def sparse_table(rng, nx, ny, den):
 
 def gen(rng, tier):
     out = []
-    nrand = 12 if tier == "quick" else 800
+    nrand = 4 if tier == "quick" else 300
     gid = 0
     ex = EXAMPLE
     c1 = [([x / 16 for x in b], u / 16) for b, u in ex[0]]
@@ -67,12 +67,12 @@ def gen(rng, tier):
                         out += mk(ty, n1, n2, ny, c1, c2, mkd(n1), mkd(n2), mkd(ny), "float" if floaty else "grid", gid)
                     # structured zeros: candidates filtered by the exact model
                     cands = []
-                    for i in range(nrand * 6):
-                        den = rng.choice([4, 8, 16])
+                    for i in range(nrand * 5):
+                        den = rng.choice([4, 8])
                         gid += 1
                         cands.append(mk(ty, n1, n2, ny, sparse_table(rng, n1, ny, den), sparse_table(rng, n2, ny, den),
-                                        G.grid_dist(rng, n1, 16, True), G.grid_dist(rng, n2, 16, True),
-                                        G.grid_dist(rng, ny, 16, True), "impossible_cell", gid))
+                                        G.grid_dist(rng, n1, 8, True), G.grid_dist(rng, n2, 8, True),
+                                        G.grid_dist(rng, ny, 8, True), "impossible_cell", gid))
                     probe = [cs[0] for cs in cands]
                     res, _ = core.run_model(probe)
                     kept = 0
